@@ -474,6 +474,13 @@ def pipeline(ctx, prop):
     return tasks
 
 
+def keyed_signature(prop, t):
+    sig = '%s:%s:%s:%s' % ('span' if prop == 'C01' else 'overlap', t[2], t[1], sha(t[3]))
+    if t[4] is not None:
+        sig += ':' + ref_str(t[4])
+    return sig
+
+
 def still_fails(prop, q, spans):
     if spans is None:
         return True
@@ -487,7 +494,12 @@ def classify(ctx, prop, fails):
     the proposed repair patched in (fresh process): if the failure disappears, the defect is that mechanism."""
     if not fails:
         return
-    remaining = list(fails)
+    # failures already recorded keyed by input need no mechanism search; only unrecorded ones are re-run with
+    # the proposed repairs patched in
+    recorded = {f.get('signature') for f in ctx.known.get('findings', []) if f.get('property') == prop}
+    listed = [x for x in fails if keyed_signature(prop, x[0]) in recorded]
+    fails = [x for x in fails if keyed_signature(prop, x[0]) not in recorded]
+    remaining = list(fails) + listed
     classes = []
     if prop == 'C01':
         order = [('lowerPerChar', 'lower-expands-U+0130', lambda t: any(c.lower() != c and len(c.lower()) != 1 for c in t[3])),
@@ -498,7 +510,9 @@ def classify(ctx, prop, fails):
                  ('lowerPerChar', 'lower-expands-U+0130', lambda t: any(c.lower() != c and len(c.lower()) != 1 for c in t[3]))]
     # the what-if runs are independent of each other: start them together, apply them in priority order
     from concurrent.futures import ThreadPoolExecutor
-    with ThreadPoolExecutor(len(order)) as ex:
+    if not fails:
+        order = []
+    with ThreadPoolExecutor(max(len(order), 1)) as ex:
         pre = {which: ex.submit(lambda w=which, a=applies: (lambda c: (c, whatif(w, [x[0] for x in c])))(
             [x for x in fails if a(x[0])])) for which, sig, applies in order}
         pre = {k: v.result() for k, v in pre.items()}
